@@ -20,7 +20,7 @@ MANIFEST_INFO = {
     "engine": "E",
     "design_ref": "DESIGN.md section 5, C16",
     "technique": "bounded-exhaustive enumeration of texts x charsets x every way of cutting the encoded bytes into chunks (incl. empty chunks), of byte strings x chunk sizes x seek offsets/origins x buffer_now on an instrumented stream whose short reads are chooser choice points, of content pairs for equality, and of content types over a token alphabet for the repr/parse round trip; reference = join / bytes.decode / slicing",
-    "level_text": "All texts up to length 3 (quick) / 4 (thorough) over {a, e-acute, euro sign, U+1F600, NUL, combining acute} in utf8, utf-16, latin-1 and undeclared charset with every composition of the encoded bytes (all cuts for <= 8 (12) bytes, <= 3 cuts beyond; plus unterminated UTF-7 runs and truncated sequences) and an empty chunk at every position; every byte string of length <= 6 (7) over {00, 61, ff} x every chunk size x 7 seek offsets x both origins x buffer_now (and, for a given offset, the stream position moved by someone else between iter_bytes() and the first chunk) x every pattern of <= 2 short reads; all pairs of 40 contents for equality, and each of them against None, its own bytes and its content type; json_content's input changed afterwards; as_text() read again after the source grew; every content type over a token alphabet with <= 2 parameters for the MIME round trip; detail snapshots vs later source changes.",
+    "level_text": "All texts up to length 3 (quick) / 4 (thorough) over {a, e-acute, euro sign, U+1F600, NUL, combining acute} in utf8, utf-16, latin-1 and undeclared charset with every composition of the encoded bytes (all cuts for <= 8 (12) bytes, <= 3 cuts beyond; plus unterminated UTF-7 runs and truncated sequences) and an empty chunk at every position; every byte string of length <= 6 (7) over {00, 61, ff} x every chunk size x 7 seek offsets x both origins x buffer_now (and, for a given offset, the stream position moved by someone else between iter_bytes() and the first chunk) x every pattern of <= 2 short reads; all pairs of 48 contents (8 of them instances of a Content subclass) for equality, and each of them against None, its own bytes and its content type; json_content's input changed afterwards; as_text() read again after the source grew; every content type over a token alphabet with <= 2 parameters for the MIME round trip; detail snapshots vs later source changes.",
     "level_note": "Finite scope stands in for 'all Unicode texts / all byte strings' (one representative per UTF-8 length class, NUL, a combining mark). Content-type parameter names are lower-case tokens and values contain no quote, backslash or non-ASCII characters (charset values no comma): outside this envelope the stdlib header parser legitimately normalises.",
 }
 
@@ -358,6 +358,11 @@ def check_equality(res):
     types = [ContentType("text", "plain", {"charset": "utf8"}), ContentType("text", "plain"), ContentType("application", "octet-stream"), ContentType("text", "plain", {"charset": "utf8", "k": "v"})]
     payloads = [[], [b""], [b"a"], [b"a", b""], [b"", b"a"], [b"ab"], [b"a", b"b"], [b"b", b"a"], [b"\xff"], [b"a", b"b", b""]]
     items = [(t, p, C.Content(t, lambda p=p: list(p))) for t in types for p in payloads]
+
+    class LabelledContent(C.Content):
+        """A subclass (as TracebackContent and StackLinesContent are): still type and bytes."""
+
+    items += [(t, p, LabelledContent(t, lambda p=p: list(p))) for t in types[:2] for p in payloads[2:6]]
     for (t1, p1, c1), (t2, p2, c2) in itertools.product(items, repeat=2):
         want = (repr(t1) == repr(t2) and t1.parameters == t2.parameters) and b"".join(p1) == b"".join(p2)
         got = c1 == c2
